@@ -35,9 +35,12 @@ func runC13L2(r *core.Run) (*core.Violation, func() *core.Violation) {
 
 	simrt.Enable(r)
 	released := false
+	stop := false // ends the chain-events injector task; set before the goroutines are released (a released
+	// injector that is not told to stop would spin and keep the bubble from ever becoming idle)
 	release := func() {
 		if !released {
 			released = true
+			stop = true
 			simrt.ReleaseAll()
 		}
 	}
@@ -62,7 +65,6 @@ func runC13L2(r *core.Run) (*core.Violation, func() *core.Violation) {
 	}
 	inc := x.cur
 	// injector: publishes the chain's events in order, one per scheduling turn
-	stop := false
 	simrt.Go("chain-events", func() {
 		for !stop {
 			simrt.Yield("inject-wait")
